@@ -243,6 +243,12 @@ def eval_int(t, env, tyhint=None):
         if t.a[0] == "Not":
             return (_wrap(~v, bits, signed), bits, signed)
         raise ValueError(t.a[0])
+    if op == "call" and B.cname(t) in ("ConstantTimeEq::ct_eq", "ConstantTimeEq::ct_ne") and len(t.a[1]) == 2:
+        # subtle's contract: Choice(1) iff the two values are equal
+        x, y = (B.peel(z) for z in t.a[1])
+        vx, vy = eval_int(x, env), eval_int(y, env)
+        eq = vx[0] == vy[0]
+        return (int(eq if B.cname(t).endswith("ct_eq") else not eq), 8, False)
     if op == "call" and B.cname(t) in ("num::<impl i8>::wrapping_neg",) and len(t.a[1]) == 1:
         v, bits, signed = eval_int(t.a[1][0], env)
         return (_wrap(-v, bits, signed), bits, signed)
@@ -285,6 +291,18 @@ def _checked(bt, env):
     return ((w, bits, signed), w != exact)
 
 
+def _is_byte_elem(y, is_elem):
+    """`y` is the visited byte itself - possibly dereferenced and cast to the accumulator's 8-bit type - and nothing else."""
+    for _ in range(6):
+        if y.op in ("ref", "deref"):
+            y = y.a[0]
+        elif y.op == "cast" and str(y.a[2]) in ("i8", "u8"):
+            y = y.a[1]
+        else:
+            break
+    return is_elem(y)
+
+
 def _zero_acc(P, fn, ev, inner):
     """The OR-accumulator of the zero test: (term, init, ok_step, elem_ok, description).
     Either a loop-carried i8 local `t |= *b as i8` or `iter.fold(0i8, |acc, b| acc | *b as i8)`."""
@@ -299,7 +317,7 @@ def _zero_acc(P, fn, ev, inner):
             sides = [step.a[1], step.a[2]]
             if acc in sides:
                 other = sides[1] if sides[0] is acc else sides[0]
-                ok_step = other.op == "cast" and str(other.a[2]) == "i8"
+                ok_step = _is_byte_elem(other, lambda z: z.op == "field" and z.a[0].op == "downcast" and any(s.op == "call" and B.cname(s) == "Iterator::next" for s in subterms(z)))
                 elem_ok = any(s.op == "call" and B.cname(s) == "Iterator::next" for s in subterms(other))
         return acc, init, ok_step, elem_ok, "loop step=%s" % (show(strip_sites(step), 5) if step is not None else None)
     if len(folds) == 1 and not loops:
@@ -316,7 +334,7 @@ def _zero_acc(P, fn, ev, inner):
                 if r.op == "bin" and r.a[0] == "BitOr":
                     a, b = r.a[1], r.a[2]
                     for x, y in ((a, b), (b, a)):
-                        if x.op == "param" and x.a[0] == 2 and y.op == "cast" and str(y.a[2]) == "i8" and any(z.op == "param" and z.a[0] == 3 for z in subterms(y)):
+                        if x.op == "param" and x.a[0] == 2 and _is_byte_elem(y, lambda z: z.op == "param" and z.a[0] == 3):
                             ok_step = True
         s0 = B.peel(src)
         while s0.op == "call" and B.cname(s0) in ("slice::<impl [T]>::iter", "IntoIterator::into_iter", "Iterator::copied", "Iterator::cloned"):
@@ -355,9 +373,10 @@ def check_iszero(ctx, P, rule="E8.iszero", check_asserts=True, need=("zero", "no
         inner = inner.a[1][0]
     wrong = []
     unknown = None
-    for v in range(-128, 128):
+    signed = not (init.op == "const" and len(init.a) > 2 and str(init.a[2]) == "u8")
+    for v in (range(-128, 128) if signed else range(0, 256)):
         try:
-            r = eval_int(inner, {acc: (v, 8, True)})
+            r = eval_int(inner, {acc: (v, 8, signed)})
         except (ValueError, KeyError) as e:
             unknown = str(e)
             break
@@ -495,6 +514,16 @@ def image_source(P, fn, ev, t):
             steps.append(B.cname(t))
             t = t.a[1][0]
             continue
+        if t.op == "mutcall" and B.cname(t) in ("Extend::extend", "Vec::<T, A>::extend_from_slice") and t.a[1] == 0 and len(t.a[2]) == 2:
+            # `let mut v = Vec::with_capacity(n); v.extend(iter)`: a fresh vector filled by one extend holds the iterator's items
+            base = t.a[2][0]
+            while base.op in ("ref", "deref"):
+                base = base.a[0]
+            if base.op == "call" and B.cname(base) in ("Vec::<T>::new", "Vec::<T>::with_capacity"):
+                steps.append(B.cname(t))
+                t = t.a[2][1]
+                continue
+            return None, "extend of a vector that already holds elements: %s" % show(base, 3)
         if t.op == "loop":
             # a vector accumulated in a loop: the loop pushes into this very vector once on every way round
             init = t.a[2]
@@ -747,6 +776,36 @@ def entry_builders(P, fn):
         vals = [(gb, strip_sites(subst(v, cap)), lits) for gb, v, lits in vals]
         for gb, v, lits in vals:
             out.append({"mode": "map-closure", "fn": g, "bb": gb, "value": v, "lits": lits, "source": strip_sites(s.args[0]), "every": collected and len(vals) == 1, "header": None})
+    # (c) for_each / try_for_each(closure) that pushes the pair into a captured vector
+    for b, s in sorted(ev.sites.items()):
+        if s.callee[0] not in ("Iterator::for_each", "Iterator::try_for_each") or len(s.args) != 2:
+            continue
+        clo = B.peel(s.args[1])
+        if not (clo.op == "agg" and clo.a[0][0] == "closure"):
+            continue
+        g = P.fns.get(clo.a[0][1])
+        if g is None or g.cfg.back_edges():
+            continue
+        gev = evaluate(g)
+        pushes = [gb for gb, gs in sorted(gev.sites.items()) if gs.callee[0] == "Vec::<T, A>::push" and len(gs.args) == 2 and _has_h2p(gs.args[1])]
+        if not pushes:
+            continue
+        from ..core.terms import subst
+
+        envp = T("param", 1, gev.pname(1))
+        cap = {}
+        for i, c in enumerate(clo.a[1]):
+            cs = strip_sites(c)
+            for base in (envp, T("deref", envp)):
+                cap[T("field", base, str(i))] = cs
+        fallible = s.callee[0].endswith("try_for_each")
+        okb = (R.ok_blocks(g) if fallible else list(gev.ret_at)) or list(gev.ret_at)
+        # a failing element stops the whole verification: the pipeline's result is branched on by fn
+        sv = s.value
+        propagated = (not fallible) or any(d is not None and any(x is sv or x == sv for x in subterms(d)) for d in ev.switch.values()) or any(s2.callee[0] == "Try::branch" and s2.args and any(x is sv or x == sv for x in subterms(s2.args[0])) for s2 in ev.sites.values())
+        for gb in pushes:
+            every = propagated and all(g.cfg.dominates(gb, o) for o in okb)
+            out.append({"mode": "for-each-closure", "fn": g, "bb": gb, "value": strip_sites(subst(gev.sites[gb].args[1], cap)), "lits": G.path_literals(gev, gb, P, checks_only=True), "source": strip_sites(s.args[0]), "every": every, "header": None})
     return out
 
 
@@ -1043,6 +1102,24 @@ def _range_contains(t):
     return None
 
 
+def _about_len_only(a, list_param, R):
+    """The literal speaks about the element count of the list and about nothing else."""
+    if a[0] != "atom":
+        return False
+    ts = [x for x in a[2:] if hasattr(x, "op")]
+    if not ts:
+        return False
+    for t in ts:
+        for x in subterms(t):
+            if x.op == "param" and x.a[1] != list_param:
+                return False
+            if x.op in ("loop", "phi", "mutcall"):
+                return False
+            if x.op == "call" and B.cname(x) not in ("slice::<impl [T]>::len", "Vec::<T, A>::len", "slice::<impl [T]>::is_empty", "Vec::<T, A>::is_empty") and not (B.cname(x).endswith("::contains") and B.cname(x).startswith(("Range", "ops::Range"))) and not B.cname(x).endswith("RangeInclusive::<Idx>::new"):
+                return False
+    return any(x.op == "param" and x.a[1] == list_param for t in ts for x in subterms(t))
+
+
 def check_len_rejections(ctx, rule, P, fn_key, list_param, valid_len, lengths, describe):
     """Own rejections by the NUMBER of list elements: every Err exit of fn (spliced helpers included) whose path condition
     consists of comparisons between `len(list_param)` and constants is evaluated for each length of `lengths`; no
@@ -1057,6 +1134,14 @@ def check_len_rejections(ctx, rule, P, fn_key, list_param, valid_len, lengths, d
     for b in R.err_blocks(f):
         lits = G.path_literals(ev, b, P, checks_only=True)
         cmps = []
+        other = 0
+        for a, pol in lits:
+            if not _about_len_only(a, list_param, R):
+                other += 1
+        if other:
+            # the exit also depends on something that is not the element count (a scheme comparison, a decoded value ..):
+            # it is not a rejection by count
+            continue
         for a, pol in lits:
             rc = _range_contains(a[2]) if (a[0] == "atom" and a[1] == "term") else None
             if rc is not None and R._is_len_of(rc[3], list_param):
@@ -1075,18 +1160,32 @@ def check_len_rejections(ctx, rule, P, fn_key, list_param, valid_len, lengths, d
 
                 cmps.append((holds_rc, pol, "len in %s..%s%s" % (show(lo, 3) if lo is not None else "", "=" if incl else "", show(hi, 3) if hi is not None else "")))
                 continue
+            if a[0] == "atom" and a[1] == "term" and a[2].op == "call" and B.cname(a[2]) in ("slice::<impl [T]>::is_empty", "Vec::<T, A>::is_empty") and len(a[2].a[1]) == 1:
+                off_ = R._len_offset(a[2].a[1][0], list_param)
+                if off_ is not None:
+
+                    def holds_empty(L, off=off_):
+                        if L - off < 0:
+                            raise ValueError("sub-slice does not exist for this length")
+                        return L - off == 0
+
+                    cmps.append((holds_empty, pol, "is_empty(%s)" % show(a[2].a[1][0], 3)))
+                continue
             if not (a[0] == "atom" and a[1] == "cmp"):
                 continue
             sides = (a[3], a[4])
-            lens = [x for x in sides if R._is_len_of(x, list_param)]
+            # len(list) itself, or the length of a sub-slice of it at a constant offset (`rest` of `[first, rest @ ..]`)
+            lens = [(x, R._len_offset_of_len(x, list_param)) for x in sides if R._len_offset_of_len(x, list_param) is not None]
             if len(lens) != 1:
                 continue
-            other = sides[1] if lens[0] is sides[0] else sides[0]
+            other = sides[1] if lens[0][0] is sides[0] else sides[0]
             if any(x.op in ("param", "call", "mutcall", "loop", "phi") for x in subterms(other)):
                 continue
 
-            def holds_cmp(L, a=a, lt=lens[0]):
-                env = {lt: (L, 64, False)}
+            def holds_cmp(L, a=a, lt=lens[0][0], off=lens[0][1]):
+                if L - off < 0:
+                    raise ValueError("sub-slice does not exist for this length")
+                env = {lt: (L - off, 64, False)}
                 x, y = eval_int(a[3], env)[0], eval_int(a[4], env)[0]
                 return {"Lt": x < y, "Le": x <= y, "Gt": x > y, "Ge": x >= y, "Eq": x == y, "Ne": x != y}[a[2]]
 
@@ -1105,7 +1204,78 @@ def check_len_rejections(ctx, rule, P, fn_key, list_param, valid_len, lengths, d
                 break
         conds = " & ".join("%s%s" % ("" if p else "!", d) for _, p, d in cmps)
         ctx.ob(rule, "%s/err[%s]" % (fn_key, conds[:80]), bad is None, "%s rejects when %s: %s" % (fn_key, conds, "no admitted %s is refused" % describe if bad is None else "REFUSES the admitted %s %d" % (describe, bad)), where=where(f, b))
+    # the same question decided by walking the control-flow graph for each length: as long as every branch on the way is
+    # decided by the element count alone (comparisons of len / of a sub-slice's len, is_empty, slice patterns), follow it;
+    # reaching an error exit that way is a rejection by count (this sees disjunctive guards such as
+    # `match xs { [first, rest @ ..] if rest.len() > 1 => .., _ => return Err(..) }`)
+    errs = set(R.err_blocks(f))
+    refused = None
+    for L in lengths:
+        if not valid_len(L):
+            continue
+        hit = _walk_by_count(f, ev, list_param, L, errs, R)
+        if hit is not None:
+            refused = (L, hit)
+            break
+    if errs:
+        n += 1
+        ctx.ob(rule, "%s/walk" % fn_key, refused is None, "%s, followed branch by branch for each admitted %s: %s" % (fn_key, describe, "no error exit is reached through count-only decisions" if refused is None else "REFUSES the admitted %s %d (error exit bb%d reached through decisions on the count alone)" % (describe, refused[0], refused[1])), where=where(f, refused[1]) if refused else where(f))
     return n
+
+
+def _walk_by_count(f, ev, list_param, L, errs, R, limit=400):
+    """Error-exit block reached from the entry when len(list_param) = L and every switch on the way is decided by L
+    alone; None when an undecidable branch (or a normal exit) comes first."""
+    b = 0
+    seen_err = None
+    for _ in range(limit):
+        if b in errs and seen_err is None:
+            seen_err = b
+        t = f.blocks[b]["term"]
+        k = t["k"]
+        if k == "return":
+            return seen_err
+        if k in ("goto", "drop", "assert") or (k == "call" and t.get("target") is not None):
+            b = t["target"]
+            continue
+        if k != "switch":
+            return None
+        d = ev.switch.get(b)
+        if d is None:
+            return None
+        env = {}
+        ok = True
+        for x in subterms(d):
+            if x.op in ("loop", "phi", "mutcall"):
+                ok = False
+                break
+            off = R._len_offset_of_len(x, list_param)
+            if off is not None:
+                if L - off < 0:
+                    ok = False
+                    break
+                env[x] = (L - off, 64, False)
+            elif x.op == "call" and B.cname(x) in ("slice::<impl [T]>::is_empty", "Vec::<T, A>::is_empty") and len(x.a[1]) == 1:
+                o2 = R._len_offset(x.a[1][0], list_param)
+                if o2 is None or L - o2 < 0:
+                    ok = False
+                    break
+                env[x] = (1 if L - o2 == 0 else 0, 8, False)
+            elif x.op == "param" and x.a[1] != list_param:
+                ok = False
+                break
+        if not ok:
+            return None
+        try:
+            v = eval_int(strip_sites(d) if False else d, env)[0]
+        except Exception:
+            return None
+        nxt = None
+        for val, tgt in t["arms"]:
+            if val == v:
+                nxt = tgt
+        b = nxt if nxt is not None else t["otherwise"]
+    return None
 
 
 COMBINERS = (
